@@ -114,8 +114,8 @@ func newApplierEnv(seed int64, td uint64, variant int) *applierEnv {
 	p := protocolVariant(testProtocol(td), variant)
 
 	return &applierEnv{
-		conc:    newConcretizer(seed),
-		proto:   p,
+		conc:  newConcretizer(seed),
+		proto: p,
 		// (the applier parses ANCHORED operations: a time validator, which judges requests that are not anchored
 		// yet, has no say - the one installed refuses everything)
 		applier: operationapplier.New(p, operationparser.New(p, operationparser.WithAnchorTimeValidator(refusingTimeValidator{}), operationparser.WithAnchorOriginValidator(refusingOriginValidator{})), doccomposer.New()),
@@ -934,4 +934,6 @@ func applierTrace(args []string) {
 // operations are applied whatever their origin (every node must reach the same state).
 type refusingOriginValidator struct{}
 
-func (refusingOriginValidator) Validate(_ interface{}) error { return fmt.Errorf("anchor origin not allowed here") }
+func (refusingOriginValidator) Validate(_ interface{}) error {
+	return fmt.Errorf("anchor origin not allowed here")
+}
